@@ -869,8 +869,10 @@ def run_all_paths(prog: Program, cfg: Config, max_paths: int = 16):
             continue
         seen.add(r.path)
         results.append(r)
-        # fork: for each decision beyond the forced prefix that took the default
-        for i in range(len(dec), len(r.path)):
+        # fork: for each decision beyond the forced prefix that took the default (the decisions of
+        # the earlier steps of a history keep their default: one way through them is enough)
+        first_forkable = len(r.path) - len(r.final_path)
+        for i in range(max(len(dec), first_forkable), len(r.path)):
             alt = r.path[:i] + (not r.path[i],)
             todo.append(alt)
         if len(results) > max_paths:
